@@ -1,4 +1,4 @@
-(* Properties_C01.v — property C01 (no checker crashes or hangs) for the 13 transliterated checkers: every one is total on
+(* Properties_C01.v — property C01 (no checker crashes or hangs) for the 15 transliterated checkers: every one is total on
    every well-formed model file. Termination is Coq's structural-recursion guard. The C01_prefix_*_refuted theorems
    document the crashes fixed by repository commits a8b628a..98eb553: they are statements about the explicitly named
    pre-fix definitions of Model_Checkers_Prefix.v, and C01_fixed_witnesses_ok evaluates the current definitions on the
@@ -56,6 +56,14 @@ Print Assumptions C01_regexpPattern_total.
 Theorem C01_regexpSimplify_total : forall f, wf f = true -> forall s, run_regexpSimplify_entry f <> Panic s.
 Proof. exact (fun f _ => regexp_entry_total regexpSimplify_names "regexpSimplify" f). Qed.
 Print Assumptions C01_regexpSimplify_total.
+
+Theorem C01_truncateCmp_total : forall skip f, wf f = true -> forall s, run_truncateCmp skip f <> Panic s.
+Proof. exact (fun skip f _ => truncateCmp_total skip f). Qed.
+Print Assumptions C01_truncateCmp_total.
+
+Theorem C01_nilValReturn_total : forall f, wf f = true -> forall s, run_nilValReturn f <> Panic s.
+Proof. exact (fun f _ => nilValReturn_total f). Qed.
+Print Assumptions C01_nilValReturn_total.
 
 Theorem C01_prefix_appendCombine_refuted : exists f, wf f = true /\ exists s, run_appendCombine_prefix f = Prefix.Panic s.
 Proof. exact appendCombine_prefix_refuted. Qed.
